@@ -243,14 +243,21 @@ pub fn fresh_replay(path: &str, timeout: f64) -> FreshReplay {
         Err(e) => return FreshReplay::Error(e.to_string()),
     };
     let t0 = Instant::now();
+    // drain the child's stdout while it runs: a child that writes more than a pipe holds would
+    // otherwise block for ever with nobody reading
+    let reader = child.stdout.take().map(|mut so| {
+        std::thread::spawn(move || {
+            use std::io::Read;
+            let mut out = Vec::new();
+            let _ = so.read_to_end(&mut out);
+            String::from_utf8_lossy(&out).into_owned()
+        })
+    });
+    let mut reader = reader;
     loop {
         match child.try_wait() {
             Ok(Some(status)) => {
-                let mut out = String::new();
-                if let Some(mut so) = child.stdout.take() {
-                    use std::io::Read;
-                    let _ = so.read_to_string(&mut out);
-                }
+                let out = reader.take().and_then(|h| h.join().ok()).unwrap_or_default();
                 return match status.code() {
                     Some(0) => FreshReplay::Pass,
                     Some(1) => {
